@@ -112,7 +112,7 @@ theorem C08_errors_keep_state_sound (c : Ctx) (hc : CInv c) (h : Handle) (m : No
 
 /-- non-vacuity: a corrupted document `[1, 0xc1]` (reserved marker): the root and element 0
     are answered, element 1 is a read error — by the specification, hence by the provider -/
-example : Spec.run #[0x92, 1, 0xc1] 0 [.root, .atIndex ⟨0, []⟩ 0, .atIndex ⟨0, []⟩ 1] =
+example : Spec.run #[0x92, 1, 0xc1] 0 [.root, .atIndex (.node ⟨0, []⟩) 0, .atIndex (.node ⟨0, []⟩) 1] =
     [.val (.arr ⟨0, []⟩ 2), .val (.num (F64.ofNat 1)), .val (.err ErrorCode_ReadError)] := by
   simp [Spec.run, Spec.answer, Spec.valueAt, Spec.getAtIndex, Spec.hdrAt, specPath, specChild, eagerFuel, skip, skipN,
     readHdr, hdrOfMarker, hdrFix, hdrTagged, arrHdr, mkNode, Ctx.encodeNode, ROp.nextRoots]
